@@ -152,6 +152,7 @@ type queryJob struct {
 	file   string
 	script string
 	hash   string
+	lite   string
 }
 
 var nameSan = regexp.MustCompile(`[^A-Za-z0-9_.#:@-]+`)
@@ -184,47 +185,64 @@ func (e *Engine) Discharge(obls []*Obligation, outDir string, timeout time.Durat
 			if o.Goal.IsTrue() && o.Expect != "sat" {
 				continue
 			}
-			sc := &smt.Script{Logic: "ALL", DefFuns: defFuns}
-			sc.Asserts = append(sc.Asserts, o.Hyps...)
-			// only axioms about symbols that occur in this obligation
-			used := map[string]bool{}
-			for _, h := range o.Hyps {
-				for k := range AxiomSymbols(h) {
-					used[k] = true
-				}
-			}
-			for k := range AxiomSymbols(o.Goal) {
-				used[k] = true
-			}
-			for _, ax := range axioms {
-				rel := false
-				for k := range AxiomSymbols(ax) {
-					if used[k] {
-						rel = true
-						break
+			build := func(hyps []*smt.Term) *smt.Script {
+				sc := &smt.Script{Logic: "ALL", DefFuns: defFuns}
+				sc.Asserts = append(sc.Asserts, hyps...)
+				// only axioms about symbols that occur in this obligation
+				used := map[string]bool{}
+				for _, h := range hyps {
+					for k := range AxiomSymbols(h) {
+						used[k] = true
 					}
 				}
-				if !rel {
-					continue
+				for k := range AxiomSymbols(o.Goal) {
+					used[k] = true
 				}
-				// The generator does the quantifier work where it can: an axiom whose pattern is f(x1..xn) over
-				// exactly its bound variables is replaced by its instances at the ground f-terms of the query.
-				if insts, ok := groundInstances(ax, append(append([]*smt.Term{}, o.Hyps...), o.Goal)); ok {
-					sc.Axioms = append(sc.Axioms, insts...)
+				for _, ax := range axioms {
+					rel := false
+					for k := range AxiomSymbols(ax) {
+						if used[k] {
+							rel = true
+							break
+						}
+					}
+					if !rel {
+						continue
+					}
+					// The generator does the quantifier work where it can: an axiom whose pattern is f(x1..xn) over
+					// exactly its bound variables is replaced by its instances at the ground f-terms of the query.
+					if insts, ok := groundInstances(ax, append(append([]*smt.Term{}, hyps...), o.Goal)); ok {
+						sc.Axioms = append(sc.Axioms, insts...)
+					} else {
+						sc.Axioms = append(sc.Axioms, ax)
+					}
+				}
+				if o.Expect == "sat" {
+					sc.Asserts = append(sc.Asserts, o.Goal)
 				} else {
-					sc.Axioms = append(sc.Axioms, ax)
+					sc.Asserts = append(sc.Asserts, smt.Not(o.Goal))
+				}
+				// generator-side instantiation of quantified hypotheses at the ground terms of the query (the
+				// quantified hypotheses are kept as well)
+				sc.Asserts = append(sc.Asserts, instantiateHyps(hyps, o.Goal)...)
+				for _, mt := range sortedKeys(o.ModelTerms) {
+					sc.GetVals = append(sc.GetVals, o.ModelTerms[mt])
+				}
+				return sc
+			}
+			sc := build(o.Hyps)
+			// a smaller query without the allocation facts is tried first: unsat from fewer hypotheses is still unsat
+			var lite []*smt.Term
+			if o.Expect != "sat" && !mentionsAlloc(o.Goal) {
+				for _, h := range o.Hyps {
+					if !mentionsAlloc(h) {
+						lite = append(lite, h)
+					}
 				}
 			}
-			if o.Expect == "sat" {
-				sc.Asserts = append(sc.Asserts, o.Goal)
-			} else {
-				sc.Asserts = append(sc.Asserts, smt.Not(o.Goal))
-			}
-			// generator-side instantiation of quantified hypotheses at the ground terms of the query (the
-			// quantified hypotheses are kept as well)
-			sc.Asserts = append(sc.Asserts, instantiateHyps(o.Hyps, o.Goal)...)
-			for _, mt := range sortedKeys(o.ModelTerms) {
-				sc.GetVals = append(sc.GetVals, o.ModelTerms[mt])
+			liteText := ""
+			if len(lite) > 0 && len(lite) < len(o.Hyps) {
+				liteText = build(lite).Render()
 			}
 			text := sc.Render()
 			h := fmt.Sprintf("%x", sha256.Sum256([]byte(text)))[:16]
@@ -238,6 +256,9 @@ func (e *Engine) Discharge(obls []*Obligation, outDir string, timeout time.Durat
 			}
 			file := filepath.Join(outDir, fmt.Sprintf("%s.%s.p%d.smt2", fn, h[:8], i))
 			j := &queryJob{obl: o, file: file, script: "; obligation " + name + "\n; " + o.Src + "\n" + text, hash: h}
+			if liteText != "" {
+				j.lite = "; obligation " + name + " (without allocation facts)\n" + liteText
+			}
 			cache[h] = j
 			jobOf[o] = j
 			jobsList = append(jobsList, j)
@@ -258,6 +279,23 @@ func (e *Engine) Discharge(obls []*Obligation, outDir string, timeout time.Durat
 				results[j] = QueryResult{Status: "error", Raw: err.Error()}
 				mu.Unlock()
 				return
+			}
+			if j.lite != "" {
+				lf := strings.TrimSuffix(j.file, ".smt2") + ".lite.smt2"
+				if err := os.WriteFile(lf, []byte(j.lite), 0o644); err == nil {
+					lt := timeout / 2
+					if lt < 5*time.Second {
+						lt = 5 * time.Second
+					}
+					if lr, _ := Race(lf, lt, DefaultSolvers, false); lr.Status == "unsat" {
+						lr.File = lf
+						lr.Backend += "(lite)"
+						mu.Lock()
+						results[j] = lr
+						mu.Unlock()
+						return
+					}
+				}
 			}
 			r, allr := Race(j.file, timeout, DefaultSolvers, all)
 			if all {
@@ -284,12 +322,17 @@ func (e *Engine) Discharge(obls []*Obligation, outDir string, timeout time.Durat
 	wg.Wait()
 	// second chance, one query at a time with a longer limit: keeps a loaded machine from turning a provable
 	// obligation into a timeout
+	retries := 0
 	for _, j := range jobsList {
 		r := results[j]
 		if r.Status == "unsat" || r.Status == "sat" {
 			continue
 		}
-		r2, _ := Race(j.file, 3*timeout, DefaultSolvers, false)
+		retries++
+		if retries > 4 {
+			break // bounded: a tree that really breaks many obligations must not take forever to say so
+		}
+		r2, _ := Race(j.file, 2*timeout, DefaultSolvers, false)
 		r2.File = j.file
 		r2.Secs += r.Secs
 		if r2.Status == "unsat" || r2.Status == "sat" {
@@ -606,4 +649,28 @@ func instantiateHyps(hyps []*smt.Term, goal *smt.Term) []*smt.Term {
 		}
 	}
 	return out
+}
+
+func mentionsAlloc(t *smt.Term) bool {
+	seen := map[int]bool{}
+	var walk func(u *smt.Term) bool
+	walk = func(u *smt.Term) bool {
+		if seen[u.ID()] {
+			return false
+		}
+		seen[u.ID()] = true
+		if u.Op == "var" && strings.HasPrefix(u.Name, "$alloc") {
+			return true
+		}
+		if u.Op == "app" && u.Name == "root$ref" {
+			return true
+		}
+		for _, a := range u.Args {
+			if walk(a) {
+				return true
+			}
+		}
+		return false
+	}
+	return walk(t)
 }
